@@ -58,8 +58,10 @@ fn role_of(file: &str, func: &str, recv: &str, kind: &str) -> &'static str {
             }
         }
         _ => {
-            let counters = ["self.memory_usage", "self.max_memory_usage", "self.bucket_capacity", "self.key"];
-            if counters.contains(&recv) {
+            let counters = ["self.memory_usage", "self.max_memory_usage", "self.bucket_capacity"];
+            if recv == "self.key" && file == "threaded_rodeo.rs" {
+                ".keyCounter"
+            } else if counters.contains(&recv) {
                 ".counter"
             } else {
                 ".unknown"
